@@ -268,7 +268,7 @@ func main() {
 		var mut []mutResult
 		if *tier == "thorough" && os.Getenv("ERGOCHECK_NO_MUTANTS") == "" {
 			only := map[string]bool{}
-			for _, r := range propertyRules[id] {
+			for _, r := range rulesOf(id) {
 				only[r] = true
 			}
 			mut, _ = runMutants(filepath.Join(*out, "mutants"), *repo, only, id)
@@ -309,7 +309,7 @@ func analyse(repo, tier string, props []string, ruleList string) (*runResult, in
 		}
 	}
 	for _, id := range props {
-		for _, r := range propertyRules[id] {
+		for _, r := range rulesOf(id) {
 			if rules[r] == nil {
 				fmt.Fprintf(os.Stderr, "ergocheck: property %s names unknown rule %q\n", id, r)
 				return nil, 2
@@ -394,12 +394,46 @@ func toInt(v any) int {
 	return 0
 }
 
+// ruleRef splits an entry of propertyRules: "OU18" is the whole rule, "OU18:StartDir" only the rule's obligations whose
+// key carries the tag (a rule with one instance per option field, of which a property speaks about one).
+func ruleRef(s string) (rule, tag string) {
+	if i := strings.Index(s, ":"); i >= 0 {
+		return s[:i], s[i+1:]
+	}
+	return s, ""
+}
+
+// obligationsOf: the obligations of the run that count for the property.
+func obligationsOf(run *runResult, id string) []Obligation {
+	var obs []Obligation
+	for _, ref := range propertyRules[id] {
+		r, tag := ruleRef(ref)
+		for _, o := range run.byRule[r] {
+			if tag == "" || strings.Contains(o.Key, "|"+tag+"|") || strings.HasSuffix(o.Key, "|"+tag) || strings.Contains(o.Key, "|"+tag+" ") {
+				obs = append(obs, o)
+			}
+		}
+	}
+	return obs
+}
+
+// rulesOf: the rule ids of a property without tags, each once.
+func rulesOf(id string) []string {
+	var out []string
+	seen := map[string]bool{}
+	for _, ref := range propertyRules[id] {
+		r, _ := ruleRef(ref)
+		if !seen[r] {
+			seen[r] = true
+			out = append(out, r)
+		}
+	}
+	return out
+}
+
 // report prints the verdict lines for one property and writes its evidence; returns true on violation.
 func report(run *runResult, id, tier, out string, known []knownFinding, dump bool, wall float64) bool {
-	var obs []Obligation
-	for _, r := range propertyRules[id] {
-		obs = append(obs, run.byRule[r]...)
-	}
+	obs := obligationsOf(run, id)
 	sort.SliceStable(obs, func(i, j int) bool { return obs[i].Key < obs[j].Key })
 	isKnown := func(o Obligation) (knownFinding, bool) {
 		for _, k := range known {
@@ -471,7 +505,7 @@ func report(run *runResult, id, tier, out string, known []knownFinding, dump boo
 		}
 	}
 	var ruleDocs []string
-	for _, r := range propertyRules[id] {
+	for _, r := range rulesOf(id) {
 		ruleDocs = append(ruleDocs, r+": "+rules[r].Doc)
 	}
 	seed := 0
